@@ -1543,9 +1543,18 @@ class _SessionTrackingClient:
             hdrs = resp.headers
         except AttributeError:
             return
+        # Apply the close flag first: a response that closes one session and
+        # opens another carries both headers, and the freshly minted token
+        # must survive — otherwise the new server-side session is orphaned.
+        close_flag = hdrs.get(SESSION_CLOSE_HEADER) or hdrs.get(SESSION_CLOSE_HEADER.lower())
+        if (close_flag or "").strip().lower() == "true":
+            self._view._token = None
+            self._view._echo_headers.clear()
+            self._view._closed = True
         token = hdrs.get(SESSION_HEADER) or hdrs.get(SESSION_HEADER.lower())
         if token:
             self._view._token = token
+            self._view._closed = False
         # Capture VGI-Echo-* on every response (cheap; only emitted on session
         # open, so subsequent responses are no-ops). httpx2 headers are
         # case-insensitive but _SyncTestResponse stores lowercase — iterate
@@ -1555,11 +1564,6 @@ class _SessionTrackingClient:
             name_lower = hname.lower()
             if name_lower.startswith(prefix_lower):
                 self._view._echo_headers[hname[len(ECHO_HEADER_PREFIX) :]] = hvalue
-        close_flag = hdrs.get(SESSION_CLOSE_HEADER) or hdrs.get(SESSION_CLOSE_HEADER.lower())
-        if (close_flag or "").strip().lower() == "true":
-            self._view._token = None
-            self._view._echo_headers.clear()
-            self._view._closed = True
 
     def post(self, url: str, **kwargs: Any) -> Any:
         """Forward POST, merging session headers and capturing the response."""
